@@ -91,7 +91,8 @@ def check(run: Run) -> None:
                     prob = roundtrip_problem(cs, T, r[1], d, has_eof(c.text))
                     if prob and has_eof(c.text) and prob.get("what") == "bytes consumed != len(dumps(v))":
                         prob = None   # [EOF] arrays extend to the end of the input by definition
-                    if prob and has_eof(c.text) and c.align and prob.get("what") == "parse(dumps(v)) != v":
+                    if prob and has_eof(c.text) and c.align and (prob.get("what") == "parse(dumps(v)) != v" or str(prob.get("observed", "")).startswith("parsing dumps(v) raises EOFError")):
+                        # (the EOFError form: the padding is not a whole number of elements, so the array ends in a partial element)
                         # recorded finding: the tail padding dumps() appends to an aligned structure is swallowed by its trailing [EOF] array.
                         # Only that: without the zero padding the dump must round-trip.
                         for k in range(1, min(len(d), max(T.alignment or 1, 1))):
